@@ -888,7 +888,8 @@ theorem sumInv_apply {fixed : Bool} {stable s s' : St} {op : Op} {keys : List (N
     obtain ⟨r1, hr1, G1⟩ := gap_putSupply h1 V.sum
     rw [hr] at hr1; injection hr1 with hr1; subst hr1
     have G2 := gap_putEquity hn hk h2 G1
-    obtain ⟨_, _, _, he1, _, ha1⟩ := putSupply_ok h1
+    obtain ⟨rr, hrr, _, he1, _, ha1⟩ := putSupply_ok h1
+    rw [hr] at hrr; injection hrr with hrr; subst hrr
     obtain ⟨_, ha2, _, he2⟩ := putEquity_ok h2
     -- net effect of the entry write on the holdings of asset x
     have hdelta : ∀ x, valOf x (some (code, newEq)) - valOf x (s1.equity rc tid) = if code = x then a else 0 := by
@@ -1041,7 +1042,8 @@ theorem sumInv_apply {fixed : Bool} {stable s s' : St} {op : Op} {keys : List (N
         obtain ⟨r1, hr1, G1⟩ := gap_putSupply h1 V.sum
         rw [hr0] at hr1; injection hr1 with hr1; subst hr1
         have G2 := gap_putEquity hn hks h2 G1
-        obtain ⟨_, _, _, he1, _, ha1⟩ := putSupply_ok h1
+        obtain ⟨rr, hrr, _, he1, _, ha1⟩ := putSupply_ok h1
+        rw [hr0] at hrr; injection hrr with hrr; subst hrr
         have hc' : c' = c0 := by rw [he1, hse] at hs1; cases hs1; rfl
         subst hc'
         refine ⟨?_, ?_, hids, ?_⟩
@@ -1141,6 +1143,22 @@ theorem supply_eq_sum_refuted :
 example : GuardedBlocks false St.empty witnessBlocks := by
   simp [GuardedBlocks, GuardedOps, witnessBlocks, IdOK, St.empty, runOps, step, apply, create, issue, lookup,
     verifyCode, putSupply, putEquity, setMeta, bind, Except.bind, pure, Except.pure]
+
+
+/-- without the id discipline even `frozen_immovable` fails (same unrepaired defect): account 4 parks 50 units of
+    ITS asset 7 under the id of asset 1 in account 5 and freezes asset 7; a holder of asset 1 then sends 10 units
+    to account 5 — the frozen asset's holdings grow to 60 -/
+def frozenWitness : List (List Op) :=
+  [[.create 1 1 1 true true 2 false, .create 4 7 1 true true 2 false],
+   [.issue 1 2 20 1 3 (some 100), .replenish 4 5 7 1 (some 50)],
+   [.modify 4 7 (.set true)],
+   [.transfer 2 5 1 0 (some 10)]]
+
+theorem frozen_moved_refuted :
+    ((runBlocks true St.empty (frozenWitness.take 3)).assets 7).map (·.frozen) = some true ∧
+    (runBlocks true St.empty (frozenWitness.take 3)).equity 5 1 = some (7, 50) ∧
+    ((runBlocks true St.empty frozenWitness).assets 7).map (·.frozen) = some true ∧
+    (runBlocks true St.empty frozenWitness).equity 5 1 = some (7, 60) := by decide
 
 
 end LemoProofs.C12
